@@ -40,7 +40,7 @@ AllRepls  == {"default", "function", "boundmeth", "callobj", "newcallable", "val
 Shareable == {"function", "boundmeth", "callobj", "value"}     \* objects the caller supplies
 (* smaller alphabets for the deeper / wider runs *)
 Preset    == IF "PRESET" \in DOMAIN IOEnv THEN IOEnv.PRESET ELSE "full"
-Styles    == IF Preset = "full" THEN AllStyles ELSE {"with", "deco", "start"}
+Styles    == CASE Preset = "full" -> AllStyles [] Preset = "mid" -> {"with", "start"} [] OTHER -> {"with", "deco", "start"}
 Repls     == CASE Preset = "full" -> AllRepls
                [] Preset = "small" -> {"default", "function", "value"}
                [] OTHER -> {"default", "function", "callobj", "value"}          \* "mid"
